@@ -311,7 +311,7 @@ func snapKey(s string) string {
 }
 
 func (e *Explorer) tracked(x *X, a Atom) (track, sticky bool) {
-	if e.H.Track != nil && e.H.Track(x, a) {
+	if e.H.Track != nil && (e.H.Track(x, a) || e.H.Track(x, a.Neg())) {
 		return true, true
 	}
 	if !e.AutoTrack {
